@@ -672,6 +672,7 @@ def main():
     check.extra["simulation"] = {
         "simulated_runs": tot["runs"], "runs_per_hour": int(tot["runs"] / max(wall, 1e-9) * 3600), "watch_cases": tot["cases"],
         "scheduler_steps": tot["steps"], "simulated_time_s": round(tot["sim_ms"] / 1000.0, 1),
+        "runs_repeated_with_15x_step_budget(long, not looping)": sim.budget_retries,
         "distinct_interleaving_signatures": len(sigs), "cases_ending_invalid(liveness only)": tot["final_invalid"],
         "cases_with_a_file_that_makes_the_package_invalid_for_good": tot["cases_with_unfinished_file"],
         "regenerations_started_while_invalid_for_good(must write nothing)": tot["regenerations_started_while_invalid_for_good"],
